@@ -4,6 +4,7 @@
    the system-level translation validation in harness/c06.py. *)
 From BFG Require Import Base.Chars Shell.PosixQuote Shell.Sh Make.MakeWrite Make.MakeRead
   Ninja.NinjaWrite Ninja.NinjaRead Graph.BackendAgree Graph.Steps Graph.Emit Graph.EmitProofs.
+From BFG Require Make.MakeTVars Graph.FlagsVars Graph.FlagsVarsProofs.
 
 (* Make: GLOBAL_X := g ; tgt: X := $(GLOBAL_X) t ; a recipe reference to X delivers g ++ t *)
 Theorem C06_make_flags : forall uw us v gname g t text_g text_t,
@@ -48,6 +49,25 @@ Theorem C06_backends_agree_on_flags : forall uw us v env gname g t text_g text_t
   via_make = Some (compdb_flags g t) /\ via_ninja = Some (compdb_flags g t).
 Proof. exact backends_agree_on_flags. Qed.
 Print Assumptions C06_backends_agree_on_flags.
+
+(* C06_make_flags reads the two lines  GLOBAL_X := g ; tgt: X := $(GLOBAL_X) t  in isolation.  In a whole Makefile the
+   recipe of a target sees X through GNU Make's lookup (own target-specific, own pattern-specific, inherited from the
+   dependent on whose behalf it is built, global: Make/MakeTVars.v).  With the lines flags_vars and the rule handlers
+   write (Graph/FlagsVars.v, the pattern-specific line  %: X := $(GLOBAL_X)  included) every target - with or without
+   own values, as a goal or as a prerequisite of any chain of dependents - gets the words compile_commands.json and
+   Ninja (edge-local bindings, no inheritance) give it.  Corollary of C01_flags_goal_independent, with its guard: no ; in
+   the text of a written target-specific line (the complement is a Make / Ninja disagreement: C01_flags_target_semicolon_refuted). *)
+Theorem C06_make_flags_any_goal : forall uw us fname g own written defs gl st,
+  name_ok fname = true ->
+  NoDup (map fst own) ->
+  FlagsVars.flag_defs uw us true fname (words_items g) (FlagsVars.own_items own) = Some written ->
+  forallb FlagsVars.tline_plain written = true ->
+  filter (FlagsVarsProofs.about (FlagsVars.global_name fname) fname) defs = written ->
+  MakeTVars.read_defs (MakeTVars.mkVS gl [] []) defs = Some st ->
+  forall t chain,
+    sh_words uw (MakeTVars.lookup st fname t chain) = Some (compdb_flags g (FlagsVars.own_words own t)).
+Proof. exact FlagsVarsProofs.flags_goal_independent. Qed.
+Print Assumptions C06_make_flags_any_goal.
 
 Local Open Scope N_scope.
 (* ====================================================================== dependency relation and targets (phase 2)
